@@ -154,6 +154,7 @@ class Worker(object):
         self.finished = False
         self.thread = None
         self.events = []          # (call index, exception name)
+        self.answers = []         # (call index, what `discard` returned)
         self.lock_steps = []      # global step numbers of its lock operations
 
 
@@ -612,6 +613,9 @@ def do_call(sched, st, call, expired):
         st[k] = make_doc(k, expired)
     elif m == 'delItem':
         del st[k]
+    elif m == 'discard':
+        # what Collection._delete removes a document with: tells whether there was one
+        return st.discard(k)
     elif m == 'len':
         len(st)
     elif m == 'isEmpty':
@@ -656,7 +660,9 @@ def replay(scenario, schedule, with_story=False):
         def body(w):
             for ci, call in enumerate(prog):
                 try:
-                    do_call(sched, st, call, expired)
+                    r = do_call(sched, st, call, expired)
+                    if call[0] == 'discard':
+                        w.answers.append((ci, r))
                 except Exception as e:  # pylint: disable=broad-except
                     w.events.append((ci, exc_name(e)))
                     sched.event('call %d (%s) raises' % (ci, call[0]), exc_name(e))
@@ -673,7 +679,13 @@ def replay(scenario, schedule, with_story=False):
     counters = [getattr(getattr(rw, a, None), '_counter', None)
                 for a in ('_read_switch', '_write_switch')]
     free = all(l.count == 0 for l in sched.locks) and all(c in (0, None) for c in counters)
+    answers = sorted((w.idx, ci, r) for w in sched.workers for (ci, r) in w.answers)
     return {'status': status, 'events': events,
+            # the discards that said they removed a document / that answered something that is
+            # not a truth value at all
+            'removed': [[t, ci] for (t, ci, r) in answers if r is True],
+            'odd_answers': [[t, ci, repr(r)] for (t, ci, r) in answers
+                            if r is not True and r is not False],
             'docs': list(st._documents.keys()), 'idx': ids(st.indexes.keys()),
             'ttl': ids(st._ttl_indexes.keys()), 'free': free, 'overlap': sched.overlap(),
             'excl': sched.exclusion_violated,
